@@ -23,7 +23,7 @@ checks = []
 for pid in sorted(spec.PROPERTIES):
     ps = spec.PROPERTIES[pid]
     rids = rule_ids(ps)
-    fams = sorted({r[0] for r in rids})
+    fams = sorted({r[0] for r in rids})  # rule family = first letter (F10 -> F)
     checks.append({
         "property_id": pid,
         "quick_cmd": "./check %s --tier quick" % pid,
